@@ -61,6 +61,7 @@ pub struct Scenario {
     pub counters: BTreeMap<String, u64>,
     pub unknown_keys: Vec<String>,
     pub fixed_change: Option<Address>,
+    pub block_accepted: Vec<TxHash>,    // transactions accepted since the block was opened (the harness's own record)
 }
 
 fn std_cov(kind: &CovKind, keys: &Keys) -> Vec<u8> {
@@ -139,7 +140,7 @@ impl Scenario {
         let mut sc = Scenario { db, mode: Mode::U(st), dict: Dict::default(),
             tables: Tables { hashes: vec![], sigs: vec![], reward: BTreeMap::new(), marker: BTreeMap::new(), hdr: vec![], melpow: vec![], ed: vec![] },
             proofs: Proofs { table: vec![] }, defs: vec![], txnames: HashMap::new(), name: name.to_string(), init: String::new(), steps: vec![], log: vec![],
-            covs, keys, violates: vec![], class: vec![], counters: BTreeMap::new(), unknown_keys: vec![], fixed_change: None };
+            covs, keys, violates: vec![], class: vec![], counters: BTreeMap::new(), unknown_keys: vec![], fixed_change: None, block_accepted: vec![] };
         sc.dict.coin(CoinID::zero_zero());
         let covh: Vec<Address> = sc.covs.keys().cloned().collect();
         for a in covh { sc.dict.cov(a); }
@@ -310,7 +311,7 @@ impl Scenario {
         let mut work = u.clone();
         let res = catch_unwind(AssertUnwindSafe(|| { let r = work.apply_tx_batch(txs); (r, work) }));
         let code = match res {
-            Ok((Ok(()), w)) => { self.mode = Mode::U(w); 0 }
+            Ok((Ok(()), w)) => { self.mode = Mode::U(w); for t in txs { self.block_accepted.push(t.hash_nosigs()); } 0 }
             Ok((Err(e), w)) => {
                 if w.verif_coins().root_hash() != before || w.verif_transactions().len() != u.verif_transactions().len() {
                     self.viol("C02", "rejected batch changed the state".into());
@@ -409,6 +410,18 @@ impl Scenario {
             if n(TxKind::LiqDeposit) > 0 { self.bump("seal_with_deposits"); }
             if n(TxKind::LiqWithdraw) > 0 { self.bump("seal_with_withdrawals"); }
             if n(TxKind::Swap) + n(TxKind::LiqDeposit) + n(TxKind::LiqWithdraw) >= 3 { self.bump("seal_with_3plus_pool_requests"); }
+        }
+        // every transaction accepted into this block is in the set that sealing settles and the block will list
+        {
+            let set: HashSet<TxHash> = u.verif_transactions().iter().map(|t| t.hash_nosigs()).collect();
+            let missing = self.block_accepted.iter().filter(|h| !set.contains(h)).count();
+            if missing > 0 {
+                let what = format!("{} transaction(s) accepted into this block are missing from the block's transaction set when it is sealed", missing);
+                for p in ["C15", "C02", "C06"] { self.viol(p, what.clone()); }
+            }
+            if set.len() > self.block_accepted.iter().collect::<HashSet<_>>().len() && !self.block_accepted.is_empty() {
+                self.viol("C02", "the block's transaction set holds a transaction that no accepted batch contained".into());
+            }
         }
         // (the legacy-deposit finding F19 is recognised by the reflection from its exact witness, not by a blanket class on the step)
         let res = catch_unwind(AssertUnwindSafe(move || { let s = u.seal(a); let hd = s.header(); (s, hd) }));
@@ -536,6 +549,7 @@ impl Scenario {
         self.dict.height(s.verif_inner().verif_height().0 + 1);
         let u = s.next_unsealed();
         self.mode = Mode::U(u);
+        self.block_accepted.clear();
         self.push_step(format!("OpNext {}", header(&hd)), 0, "next");
     }
 
@@ -563,8 +577,42 @@ impl Scenario {
         }
         // known finding F16 covers only a state sealed WITHOUT a proposer action that still holds tips
         if a != b { if tips > 0 && blk.proposer_action.is_none() { self.tag("F16"); } self.viol("C08", format!("restored state diverges from the original (tips at restart = {}, sealed {} a proposer action)", tips, if blk.proposer_action.is_some() { "with" } else { "without" })); }
+        self.fork_probe(&s);
         self.mode = Mode::S(restored);
         self.push_step(format!("OpRestart {} {}", header(&blk.header), names), 0, "restart");
+    }
+
+    /// C07: two forks of one parent, two blocks deep, read in an interleaved order - every tip's header must chain to
+    /// its own parent, and a fork rebuilt from its own block must have the same header (no state shared between snapshots)
+    fn fork_probe(&mut self, s: &SealedState<InMemoryCas>) {
+        let dest = Address(tmelcrypt::hash_single(b"fork"));
+        let db = self.db.clone();
+        let r = catch_unwind(AssertUnwindSafe(|| {
+            let a1 = s.next_unsealed().seal(Some(ProposerAction { fee_multiplier_delta: 100, reward_dest: dest }));
+            let b1 = s.next_unsealed().seal(None);
+            let (pa, pb) = (a1.header(), b1.header());
+            let a2 = a1.next_unsealed().seal(None);
+            let b2 = b1.next_unsealed().seal(None);
+            let (ha, hb) = (a2.header(), b2.header());
+            let h1 = pa.height;
+            let (ga, gb) = (a2.history(h1), b2.history(h1));
+            let (ka, kb) = (a2.pool(PoolKey::new(Denom::Mel, Denom::Sym)), b2.pool(PoolKey::new(Denom::Mel, Denom::Sym)));
+            let ra = SealedState::from_block(&a2.to_block(), &a2.raw_stakes(), &db);
+            let rb = SealedState::from_block(&b2.to_block(), &b2.raw_stakes(), &db);
+            let mut bad: Vec<String> = vec![];
+            if pa == pb { return bad; }
+            if ha.previous != pa.hash() || hb.previous != pb.hash() { bad.push("a fork tip's previous-hash is not the hash of its own parent header".into()); }
+            if ga != Some(pa) || gb != Some(pb) { bad.push("history(h) of a fork tip is not its own parent header".into()); }
+            if ra.header() != ha || rb.header() != hb { bad.push("a fork tip rebuilt from its own block has a different header".into()); }
+            let ps = |p: Option<PoolState>| p.map(|q| (q.lefts, q.rights, q.liqs, q.price_accum));
+            if ps(ra.pool(PoolKey::new(Denom::Mel, Denom::Sym))) != ps(ka) || ps(rb.pool(PoolKey::new(Denom::Mel, Denom::Sym))) != ps(kb) { bad.push("pool() of a fork tip differs from the pool in its own tree".into()); }
+            bad
+        }));
+        self.bump("c07_fork_probes");
+        match r {
+            Ok(bad) => for b in bad { self.viol("C07", b); },
+            Err(p) => { let m = crate::panic_msg(&p); self.viol("C09", format!("fork probe panicked: {}", m)); }
+        }
     }
 
     pub fn op_confirm(&mut self, signers: &[(usize, bool)]) {
@@ -2054,6 +2102,67 @@ pub fn directed(r: &mut Rng) -> Vec<Scenario> {
         t.covenants = vec![];
         sc.op_batch(&[t]);
         sc.block_end(None);
+        out.push(sc);
+    }
+    // a covenant whose weight exceeds 2^64 (five nested loops), carried unused by a faucet that pays exactly the minimum fee
+    {
+        let mut sc = base("d_heavy_covenant", r, NetID::Custom02, 1000);
+        let at = sc.at();
+        let heavy = Covenant::from_ops(&[OpCode::Loop(65535, 6), OpCode::Loop(65535, 5), OpCode::Loop(65535, 4), OpCode::Loop(65535, 3), OpCode::Loop(65535, 2), OpCode::Noop, OpCode::PushI(U256::ONE)]).to_bytes().to_vec();
+        for adj in [-1i128, 0] {
+            let mut f = Transaction::new(TxKind::Faucet);
+            f.outputs = vec![sc.cd(at, 1234 + (adj + 1) as u128, Denom::Mel)];
+            f.covenants = vec![Bytes::from(heavy.clone())];
+            f.sigs = vec![];
+            let mult = sc.ustate().verif_fee_multiplier();
+            f.fee = CoinValue(1 << 30);
+            let mut min = 0u128;
+            for _ in 0..4 { min = f.base_fee(mult, 0, melvm::covenant_weight_from_bytes).0; f.fee = CoinValue(min); }   // the fee is part of the serialized size
+            f.fee = CoinValue(((min as i128) + adj).max(0) as u128);
+            sc.op_batch(&[f]);
+        }
+        let a = act(&sc, 1);
+        sc.block_end(a);
+        out.push(sc);
+    }
+    // two swap requests of one block whose hashes share their first four bytes (found by varying eight bytes of additional data)
+    {
+        let mut sc = base("d_txhash_prefix_collision", r, NetID::Custom02, 1000);
+        let at = sc.at();
+        sc.block_end(None);
+        let ms: Vec<(CoinID, CoinDataHeight)> = sc.wallet().coins.into_iter().filter(|(_, c)| c.coin_data.denom == Denom::Mel && c.coin_data.covhash == at && c.coin_data.value.0 >= 1 << 40).take(2).collect();
+        if ms.len() == 2 {
+            let mk_swap = |sc: &mut Scenario, r: &mut Rng, m: (CoinID, CoinDataHeight), v: u128| -> Transaction {
+                let mut t = Transaction::new(TxKind::Swap);
+                t.outputs = vec![sc.cd(at, v, Denom::Mel)];
+                t.data = Bytes::from(b"s".to_vec());
+                let mut t = sc.finish_tx(r, t, &[m], 0, 0);
+                t.covenants.truncate(1);
+                // the change output carries eight bytes of additional data (a counter); pay a little more than the minimum
+                if t.outputs.len() < 2 { t.outputs.push(CoinData { covhash: at, value: CoinValue(0), denom: Denom::Mel, additional_data: Bytes::new() }); }
+                let ch = t.outputs.len() - 1;
+                t.outputs[ch].additional_data = Bytes::from(vec![0u8; 8]);
+                let extra = 100_000u128.min(t.outputs[ch].value.0);
+                t.outputs[ch].value = CoinValue(t.outputs[ch].value.0 - extra);
+                t.fee = CoinValue(t.fee.0 + extra);
+                t
+            };
+            let a0 = mk_swap(&mut sc, r, ms[0].clone(), 1 << 30);
+            let b0 = mk_swap(&mut sc, r, ms[1].clone(), 1 << 29);
+            let variant = |t: &Transaction, n: u64| -> Transaction { let mut t = t.clone(); let ch = t.outputs.len() - 1; t.outputs[ch].additional_data = Bytes::from(n.to_be_bytes().to_vec()); t };
+            let prefix = |t: &Transaction| -> [u8; 4] { let h = t.hash_nosigs().0 .0; [h[0], h[1], h[2], h[3]] };
+            let mut seen: HashMap<[u8; 4], u64> = HashMap::new();
+            for n in 0..150_000u64 { seen.insert(prefix(&variant(&a0, n)), n); }
+            let mut found: Option<(u64, u64)> = None;
+            for n in 0..400_000u64 { if let Some(na) = seen.get(&prefix(&variant(&b0, n))) { found = Some((*na, n)); break; } }
+            if let Some((na, nb)) = found {
+                sc.bump("txhash_prefix_collision_found");
+                let (ta, tb) = (variant(&a0, na), variant(&b0, nb));
+                sc.op_batch(&[ta]);
+                sc.op_batch(&[tb]);
+                if sc.op_seal(None) == 0 { sc.op_restart(); }
+            }
+        }
         out.push(sc);
     }
     // a staking-epoch boundary with a lapsing stake
